@@ -870,7 +870,12 @@ def transform_quantitative_feature(
 
     # converting nans to there value
     if any(nans):
-        df_feature[nans] = labels_per_values[feature].get(nan_value, str_nan)
+        nan_label = labels_per_values[feature].get(nan_value, str_nan)
+        # numpy's fixed-width strings would truncate a label longer than the other ones
+        if isinstance(nan_label, str) and getattr(df_feature, "dtype", None) is not None:
+            if df_feature.dtype.kind == "U":
+                df_feature = df_feature.astype(object)
+        df_feature[nans] = nan_label
 
     return feature, list(df_feature)
 
